@@ -23,8 +23,12 @@ var c01Steps = []menuItem{
 	{"[?a]", "[?a]"}, {"[?a==1]", "[?a==`1`]"}, {"[?@]", "[?@]"}, {"[1:]", "[1:]"}, {"[::-1]", "[::-1]"},
 	{".[a]", ".[a]"}, {".[a,b]", ".[a,b]"}, {".{k:a}", ".{k:a}"}, {".{k:a,l:b}", ".{k:a,l:b}"},
 	{"|a", " | a"}, {"|[0]", " | [0]"}, {"|[*]", " | [*]"}, {"|@", " | @"}, {"|$", " | $"},
-	{".[@]", ".[@]"}, {".[$.a]", ".[$.a]"}, {"[?@==$.a]", "[?@ == $.a]"}, {".k", ".k"}, {".[*]", ".[*]"},
+	{".[@]", ".[@]"}, {".[$.a]", ".[$.a]"}, {"[?@==$.a]", "[?@ == $.a]"}, {".k", ".k"}, {".[*]", ".[*]"}, {"[?!a]", "[?!a]"},
 }
+
+// the alphabet of the deep chains: selectors whose interaction inside a projection's right-hand side only shows after
+// several steps (a wildcard after a bracket after a wildcard, two fields after a nested wildcard, ...)
+var c01Deep = []string{".a", "[0]", ".*", "[*]", "[?a]"}
 
 // the sub-menu used for the longest chains: one step per projection kind and
 // the selectors that interact with projection right-hand sides
@@ -73,6 +77,26 @@ func c01Expressions(thorough bool) []c01Expr {
 	}
 	for _, s := range c01Starts {
 		chain(s, s.Text, s.Name, 0, true)
+	}
+	// deep chains over a five-symbol alphabet
+	deepMax := 5
+	if thorough {
+		deepMax = 6
+	}
+	for _, start := range []string{"a", "@", "[*]", "*"} {
+		var deep func(text, shape string, n int)
+		deep = func(text, shape string, n int) {
+			if n >= 4 {
+				add(text, shape)
+			}
+			if n == deepMax {
+				return
+			}
+			for _, st := range c01Deep {
+				deep(text+st, shape+" "+st, n+1)
+			}
+		}
+		deep(start, "deep "+start, 0)
 	}
 	// operators over short operands
 	operands := []string{"a", "b", "a.b", "a[0]", "a[*]", "a[*].b", "[0]", "@", "`1`", "`null`", "'s'", "a[?b]", "*", "a.*"}
@@ -146,6 +170,15 @@ func c01Run(r *core.Run) {
 	r.Bound("documents", len(docs))
 	r.Bound("starts", len(c01Starts))
 	r.Bound("steps", len(c01Steps))
+	// the deep chains need documents nested four to six levels: every third document plus a few deep ones
+	var deepDocs []doc
+	for i := 0; i < len(docs); i += 3 {
+		deepDocs = append(deepDocs, docs[i])
+	}
+	for _, t := range []string{`{"a":[[{"x":{"a":{"a":1}},"a":{"a":[1]}}],[{"a":{"a":{"a":[{"a":2}]}}}]]}`, `[[{"p":{"a":{"a":1}},"q":{"a":{"a":2}}}],[{"a":{"a":{"a":[3]}}}]]`,
+		`{"a":{"a":{"a":{"a":{"a":{"a":1}}}}}}`, `[[[[[[1,null]]]]]]`, `{"a":[{"a":[{"a":[{"a":[{"a":1}]}]}]}]}`, `{"x":{"y":{"a":{"a":1}}},"a":[[{"u":{"a":{"a":7}}}]]}`} {
+		deepDocs = append(deepDocs, mkDoc(t))
+	}
 	before := make([]string, len(docs))
 	for i, d := range docs {
 		before[i] = core.Canon(core.Norm(d.Raw))
@@ -157,7 +190,11 @@ func c01Run(r *core.Run) {
 		if r.Expired() {
 			break
 		}
-		c01One(r, e.Text, e.Shape, docs)
+		ds := docs
+		if strings.HasPrefix(e.Shape, "deep ") {
+			ds = deepDocs
+		}
+		c01One(r, e.Text, e.Shape, ds)
 	}
 	for i, d := range docs {
 		if core.Canon(core.Norm(d.Raw)) != before[i] {
